@@ -299,6 +299,35 @@ def cli_batch(res):
                     ok = False
                 if ok:
                     res.outcome(('cli', ext, len(lead[:2])))
+        # header comments that arrive in an #include'd .lua file - with and without a final newline (a comment ends
+        # where its file ends), one or two files, the program's first line following directly
+        for hn, (files, cart_code, want_head) in enumerate([
+                ({'hdr.lua': b'-- my game\n-- by me'}, b'#include hdr.lua\nscore=100\n', [b'-- my game', b'-- by me']),
+                ({'hdr.lua': b'-- my game\n-- by me\n'}, b'#include hdr.lua\nscore=100\n', [b'-- my game', b'-- by me']),
+                ({'t.lua': b'// title', 'a.lua': b'--[[ author ]]'}, b'#include t.lua\n#include a.lua\nscore=100\n', [b'// title', b'--[[ author ]]']),
+                ({'t.lua': b'-- title'}, b'#include t.lua\n-- author\nscore=100\n', [b'-- title', b'-- author'])]):
+            sub = os.path.join(d, 'inc%d' % hn)
+            os.makedirs(sub)
+            for fn, data in files.items():
+                open(os.path.join(sub, fn), 'wb').write(data)
+            inp = os.path.join(sub, 'c.p8')
+            open(inp, 'wb').write(b'pico-8 cartridge // http://www.pico-8.com\nversion 33\n__lua__\n' + cart_code + b'__gfx__\n' + b'0' * 128 + b'\n')
+            res.evaluations += 1
+            res.nontriv(('cli-include-header', hn))
+            case = {'src': cart_code, 'cli': 'include-header', 'seq': [], 'follower': 'text'}
+            try:
+                rc_ = tool.main(['luamin', inp])
+                got = b''.join(p8file.from_file(os.path.join(sub, 'c_fmt.p8')).lua.to_lines())
+            except Exception as e:
+                res.violation('C19|cli|raise|%s' % type(e).__name__, 'p8tool luamin on a cart whose header comments come from %r raised %r' % (sorted(files), e), case)
+                continue
+            glines = got.split(b'\n')
+            if glines[:2] != want_head or b'=100' not in b'\n'.join(glines[2:]):
+                res.violation('C19|cli|header-comment|included',
+                              'cart %r with %r: p8tool luamin wrote %r; the first two comments %r are not verbatim at the top, or the '
+                              'program after them is gone' % (cart_code, files, got[:80], want_head), case)
+            else:
+                res.outcome(('cli', 'include-header', hn))
     finally:
         shutil.rmtree(d, ignore_errors=True)
 
